@@ -444,7 +444,8 @@ Proof. intros AC. split; cbn; [discriminate|]. intros n x Hx _. eapply AC; eauto
 (* ---- _Get, all branches ----------------------------------------------------------------------- *)
 Lemma get_cases s f :
   (exists n, next s = Some n /\ nth_error (sinks s) n = Some SIdle /\ get s f = (s, GWait n, [OpenUnder n])) \/
-  (exists n, next s = Some n /\ nth_error (sinks s) n = Some SOpen /\ get s f = (s, GSink n, [])) \/
+  (exists n, next s = Some n /\ (nth_error (sinks s) n = Some SOpen \/ nth_error (sinks s) n = Some SBusy) /\
+             get s f = (s, GSink n, [])) \/
   (exists n, next s = Some n /\ nth_error (sinks s) n = None /\ get s f = (s, GRaise, [])) \/
   ((next s = None \/ exists n, next s = Some n /\ nth_error (sinks s) n = Some SClosed) /\
    ((f = true /\ get s f = (set_next s None, GRaise, [])) \/
@@ -454,8 +455,9 @@ Lemma get_cases s f :
 Proof.
   destruct s as [nx rc sk wt sp nt]. unfold get, create. cbn [next sinks set_next set_sinks refc waiting spawned ntask].
   destruct nx as [n|].
-  - destruct (nth_error sk n) as [[| |]|] eqn:E.
+  - destruct (nth_error sk n) as [[| | |]|] eqn:E.
     + left. eauto.
+    + right. left. eauto.
     + right. left. eauto.
     + right. right. right. split; [right; eauto|]. destruct f; [left|right]; split; reflexivity.
     + right. right. left. eauto.
@@ -471,7 +473,7 @@ Lemma step_sinks s l n :
   closed s n -> closed (fst (step s l)) n.
 Proof.
   unfold closed. intros Hc. pose proof (nth_error_lt _ _ _ Hc) as Hlt.
-  destruct l as [f| |t0 f| |m ok|m|t]; cbn [step].
+  destruct l as [f| |t0 f| |m ok|m|m b|t]; cbn [step].
   - destruct (get_cases (bump s) f) as [(k & _ & _ & ->)|[(k & _ & _ & ->)|[(k & _ & _ & ->)|(_ & [(_ & ->)|(_ & ->)])]]];
       cbn; try assumption. rewrite nth_error_snoc_old; assumption.
   - destruct (refc (set_refc (bump s) (refc s + 1)) >? 1)%Z; exact Hc.
@@ -482,19 +484,21 @@ Proof.
   - cbn [next set_refc refc]. destruct (next s) as [k|]; [|exact Hc].
     destruct (refc s - 1 <=? 0)%Z; cbn; [|exact Hc].
     destruct (Nat.eq_dec k n) as [->|Ne]; [apply nth_error_upd_eq, Hlt | rewrite nth_error_upd_neq; assumption].
-  - destruct (nth_error (sinks s) m) as [[| |]|] eqn:E; try exact Hc.
+  - destruct (nth_error (sinks s) m) as [[| | |]|] eqn:E; try exact Hc.
     assert (m <> n) by congruence.
     destruct ok; cbn; rewrite nth_error_upd_neq; assumption.
-  - destruct (nth_error (sinks s) m) as [[| |]|] eqn:E; try exact Hc;
+  - destruct (nth_error (sinks s) m) as [[| | |]|] eqn:E; try exact Hc;
+      (assert (m <> n) by congruence); cbn; rewrite nth_error_upd_neq; assumption.
+  - destruct (nth_error (sinks s) m) as [[| | |]|] eqn:E; destruct b; try exact Hc;
       (assert (m <> n) by congruence); cbn; rewrite nth_error_upd_neq; assumption.
   - destruct (find_task t (waiting s)) as [tk|]; [|exact Hc].
-    destruct (nth_error (sinks s) (t_sink tk)) as [[| |]|]; try exact Hc;
+    destruct (nth_error (sinks s) (t_sink tk)) as [[| | |]|]; try exact Hc;
       destruct (t_kind tk); try exact Hc; destruct (next s); exact Hc.
 Qed.
 
 Lemma step_inv s l : inv s -> inv (fst (step s l)).
 Proof.
-  intros I. destruct l as [f| |t0 f| |m ok|m|t]; cbn [step].
+  intros I. destruct l as [f| |t0 f| |m ok|m|m b|t]; cbn [step].
   - assert (Ib : inv (bump s)) by (revert I; apply inv_ext; reflexivity).
     destruct (get_cases (bump s) f) as [(k & _ & _ & ->)|[(k & _ & _ & ->)|[(k & _ & _ & ->)|(Hc & [(_ & ->)|(_ & ->)])]]];
       cbn [fst].
@@ -519,7 +523,7 @@ Proof.
     intros n x Hx _. destruct (Nat.eq_dec k n) as [->|Ne].
     + rewrite nth_error_upd_eq in Hx; [congruence|]. pose proof (I1 _ En). lia.
     + rewrite nth_error_upd_neq in Hx by assumption. apply (I2 _ _ Hx). congruence.
-  - destruct (nth_error (sinks s) m) as [[| |]|] eqn:E; try exact I.
+  - destruct (nth_error (sinks s) m) as [[| | |]|] eqn:E; try exact I.
     pose proof (nth_error_lt _ _ _ E) as Hlt. destruct I as (I1 & I2).
     assert (Hm : next s = Some m).
     { destruct (option_eq_dec_nat (next s) (Some m)) as [Em|Em]; [exact Em|].
@@ -527,15 +531,22 @@ Proof.
     destruct ok; cbn [fst]; (split; cbn [next sinks set_sinks];
       [intros n Hn; rewrite upd_length; auto |
        intros n x Hx Hne; rewrite nth_error_upd_neq in Hx by congruence; eauto]).
-  - destruct (nth_error (sinks s) m) as [[| |]|] eqn:E; try exact I;
+  - destruct (nth_error (sinks s) m) as [[| | |]|] eqn:E; try exact I;
       (pose proof (nth_error_lt _ _ _ E) as Hlt; destruct I as (I1 & I2); cbn [fst];
        split; cbn [next sinks set_sinks];
        [intros n Hn; rewrite upd_length; auto |
         intros n x Hx Hne; destruct (Nat.eq_dec m n) as [->|Ne];
         [rewrite nth_error_upd_eq in Hx by assumption; congruence |
          rewrite nth_error_upd_neq in Hx by assumption; eauto]]).
+  - destruct (nth_error (sinks s) m) as [[| | |]|] eqn:E; destruct b; try exact I;
+      (pose proof (nth_error_lt _ _ _ E) as Hlt; destruct I as (I1 & I2); cbn [fst];
+       split; cbn [next sinks set_sinks];
+       [intros n Hn; rewrite upd_length; auto |
+        intros n x Hx Hne; destruct (Nat.eq_dec m n) as [->|Ne];
+        [exfalso; specialize (I2 _ _ E Hne); discriminate |
+         rewrite nth_error_upd_neq in Hx by assumption; eauto]]).
   - destruct (find_task t (waiting s)) as [tk|]; [|exact I].
-    destruct (nth_error (sinks s) (t_sink tk)) as [[| |]|]; try exact I;
+    destruct (nth_error (sinks s) (t_sink tk)) as [[| | |]|]; try exact I;
       destruct (t_kind tk); try (destruct (next s)); cbn [fst]; (revert I; apply inv_ext; reflexivity).
 Qed.
 
@@ -543,7 +554,7 @@ Qed.
 Lemma step_create s l m :
   inv s -> In (Create m) (snd (step s l)) -> allclosed s /\ m = length (sinks s).
 Proof.
-  intros I. destruct l as [f| |t0 f| |k ok|k|t]; cbn [step].
+  intros I. destruct l as [f| |t0 f| |k ok|k|k b|t]; cbn [step].
   - assert (Ib : inv (bump s)) by (revert I; apply inv_ext; reflexivity).
     destruct (get_cases (bump s) f) as [(k & _ & _ & ->)|[(k & _ & _ & ->)|[(k & _ & _ & ->)|(Hc & [(_ & ->)|(_ & ->)])]]];
       cbn [snd app]; intros H; repeat (destruct H as [H|H]; try discriminate); try contradiction.
@@ -556,14 +567,15 @@ Proof.
     inversion H; subst. split; [|reflexivity]. apply (inv_allclosed s0); assumption.
   - cbn [next set_refc refc]. destruct (next s); [destruct (refc s - 1 <=? 0)%Z|]; cbn;
       intros H; repeat (destruct H as [H|H]; try discriminate); contradiction.
-  - unfold notify. destruct (nth_error (sinks s) k) as [[| |]|]; try destruct ok; cbn; try tauto;
+  - unfold notify. destruct (nth_error (sinks s) k) as [[| | |]|]; try destruct ok; cbn; try tauto;
       destruct (next s) as [j|]; try (destruct (Nat.eqb j k)); cbn;
       intros H; repeat (destruct H as [H|H]; try discriminate); contradiction.
-  - unfold notify. destruct (nth_error (sinks s) k) as [[| |]|]; cbn; try tauto;
+  - unfold notify. destruct (nth_error (sinks s) k) as [[| | |]|]; cbn; try tauto;
       destruct (next s) as [j|]; try (destruct (Nat.eqb j k)); cbn;
       intros H; repeat (destruct H as [H|H]; try discriminate); contradiction.
+  - destruct (nth_error (sinks s) k) as [[| | |]|]; destruct b; cbn; intros [].
   - destruct (find_task t (waiting s)) as [tk|]; [|intros []].
-    destruct (nth_error (sinks s) (t_sink tk)) as [[| |]|]; cbn; try tauto;
+    destruct (nth_error (sinks s) (t_sink tk)) as [[| | |]|]; cbn; try tauto;
       destruct (t_kind tk); try (destruct (next s)); cbn;
       intros H; repeat (destruct H as [H|H]; try discriminate); contradiction.
 Qed.
@@ -572,7 +584,7 @@ Qed.
 Lemma step_forward s l c n :
   In (Forward c n) (snd (step s l)) -> next (fst (step s l)) = Some n.
 Proof.
-  destruct l as [f| |t0 f| |k ok|k|t]; cbn [step].
+  destruct l as [f| |t0 f| |k ok|k|k b|t]; cbn [step].
   - destruct (get_cases (bump s) f) as [(k & _ & _ & ->)|[(k & Hn & _ & ->)|[(k & _ & _ & ->)|(Hc & [(_ & ->)|(_ & ->)])]]];
       cbn [fst snd app]; intros H; repeat (destruct H as [H|H]; try discriminate); try contradiction.
     inversion H; subst. exact Hn.
@@ -582,14 +594,15 @@ Proof.
       cbn [snd app]; intros H; repeat (destruct H as [H|H]; try discriminate); contradiction.
   - cbn [next set_refc refc]. destruct (next s); [destruct (refc s - 1 <=? 0)%Z|]; cbn;
       intros H; repeat (destruct H as [H|H]; try discriminate); contradiction.
-  - unfold notify. destruct (nth_error (sinks s) k) as [[| |]|]; try destruct ok; cbn; try tauto;
+  - unfold notify. destruct (nth_error (sinks s) k) as [[| | |]|]; try destruct ok; cbn; try tauto;
       destruct (next s) as [j|]; try (destruct (Nat.eqb j k)); cbn;
       intros H; repeat (destruct H as [H|H]; try discriminate); contradiction.
-  - unfold notify. destruct (nth_error (sinks s) k) as [[| |]|]; cbn; try tauto;
+  - unfold notify. destruct (nth_error (sinks s) k) as [[| | |]|]; cbn; try tauto;
       destruct (next s) as [j|]; try (destruct (Nat.eqb j k)); cbn;
       intros H; repeat (destruct H as [H|H]; try discriminate); contradiction.
+  - destruct (nth_error (sinks s) k) as [[| | |]|]; destruct b; cbn; intros [].
   - destruct (find_task t (waiting s)) as [tk|]; [|intros []].
-    destruct (nth_error (sinks s) (t_sink tk)) as [[| |]|]; cbn; try tauto;
+    destruct (nth_error (sinks s) (t_sink tk)) as [[| | |]|]; cbn; try tauto;
       destruct (t_kind tk); try (destruct (next s) as [j|] eqn:En); cbn;
       intros H; repeat (destruct H as [H|H]; try discriminate); try contradiction;
       inversion H; subst; assumption.
@@ -599,7 +612,7 @@ Qed.
 Lemma step_mentions s l o m :
   In o (snd (step s l)) -> obs_sink o = Some m -> next s = Some m \/ m = length (sinks s).
 Proof.
-  destruct l as [f| |t0 f| |k ok|k|t]; cbn [step].
+  destruct l as [f| |t0 f| |k ok|k|k b|t]; cbn [step].
   - destruct (get_cases (bump s) f) as [(k & Hn & _ & ->)|[(k & Hn & _ & ->)|[(k & _ & _ & ->)|(Hc & [(_ & ->)|(_ & ->)])]]];
       cbn [fst snd app]; intros H Ho; repeat (destruct H as [H|H]; try subst o); try contradiction;
       cbn in Ho; try discriminate; inversion Ho; subst; auto.
@@ -611,14 +624,15 @@ Proof.
   - cbn [next set_refc refc]. destruct (next s) as [j|]; [destruct (refc s - 1 <=? 0)%Z|]; cbn;
       intros H Ho; repeat (destruct H as [H|H]; try subst o); try contradiction.
     cbn in Ho. inversion Ho; subst; auto.
-  - unfold notify. destruct (nth_error (sinks s) k) as [[| |]|]; try destruct ok; cbn; try tauto;
+  - unfold notify. destruct (nth_error (sinks s) k) as [[| | |]|]; try destruct ok; cbn; try tauto;
       destruct (next s) as [j|]; try (destruct (Nat.eqb j k)); cbn;
       intros H Ho; repeat (destruct H as [H|H]; try subst o); try contradiction; discriminate.
-  - unfold notify. destruct (nth_error (sinks s) k) as [[| |]|]; cbn; try tauto;
+  - unfold notify. destruct (nth_error (sinks s) k) as [[| | |]|]; cbn; try tauto;
       destruct (next s) as [j|]; try (destruct (Nat.eqb j k)); cbn;
       intros H Ho; repeat (destruct H as [H|H]; try subst o); try contradiction; discriminate.
+  - destruct (nth_error (sinks s) k) as [[| | |]|]; destruct b; cbn; intros [].
   - destruct (find_task t (waiting s)) as [tk|]; [|intros []].
-    destruct (nth_error (sinks s) (t_sink tk)) as [[| |]|]; cbn; try tauto;
+    destruct (nth_error (sinks s) (t_sink tk)) as [[| | |]|]; cbn; try tauto;
       destruct (t_kind tk); try (destruct (next s) as [j|] eqn:En); cbn;
       intros H Ho; repeat (destruct H as [H|H]; try subst o); try contradiction;
       cbn in Ho; try discriminate; inversion Ho; subst; auto.
@@ -627,7 +641,7 @@ Qed.
 (* next_sink after a step: unchanged, None, or the sink created in this step *)
 Lemma step_next s l : step_next_ok s (fst (step s l)) /\ length (sinks s) <= length (sinks (fst (step s l))).
 Proof.
-  unfold step_next_ok. destruct l as [f| |t0 f| |k ok|k|t]; cbn [step].
+  unfold step_next_ok. destruct l as [f| |t0 f| |k ok|k|k b|t]; cbn [step].
   - destruct (get_cases (bump s) f) as [(k & Hn & _ & ->)|[(k & Hn & _ & ->)|[(k & _ & _ & ->)|(Hc & [(_ & ->)|(_ & ->)])]]];
       cbn; try rewrite app_length; cbn; auto; split; auto; lia.
   - destruct (refc (set_refc (bump s) (refc s + 1)) >? 1)%Z; cbn; auto.
@@ -636,10 +650,11 @@ Proof.
       cbn; try rewrite app_length; cbn; auto; split; auto; lia.
   - cbn [next set_refc refc]. destruct (next s) as [j|] eqn:En; [destruct (refc s - 1 <=? 0)%Z|]; cbn;
       try rewrite upd_length; auto.
-  - destruct (nth_error (sinks s) k) as [[| |]|]; try destruct ok; cbn; try rewrite upd_length; auto.
-  - destruct (nth_error (sinks s) k) as [[| |]|]; cbn; try rewrite upd_length; auto.
+  - destruct (nth_error (sinks s) k) as [[| | |]|]; try destruct ok; cbn; try rewrite upd_length; auto.
+  - destruct (nth_error (sinks s) k) as [[| | |]|]; cbn; try rewrite upd_length; auto.
+  - destruct (nth_error (sinks s) k) as [[| | |]|]; destruct b; cbn; try rewrite upd_length; auto.
   - destruct (find_task t (waiting s)) as [tk|]; [|cbn; auto].
-    destruct (nth_error (sinks s) (t_sink tk)) as [[| |]|]; cbn; auto;
+    destruct (nth_error (sinks s) (t_sink tk)) as [[| | |]|]; cbn; auto;
       destruct (t_kind tk); try (destruct (next s) eqn:En); cbn; auto.
 Qed.
 
@@ -732,7 +747,7 @@ Proof.
   destruct (get_cases (bump s) f) as [(k & Hn & Hk & ->)|[(k & Hn & Hk & ->)|[(k & Hn & Hk & ->)|(_ & [(_ & ->)|(_ & ->)])]]];
     cbn [fst]; split; cbn; try rewrite app_length; cbn; try lia; try discriminate.
   - cbn in Hn, Hk. rewrite Hn. intros H. inversion H; subst. congruence.
-  - cbn in Hn, Hk. rewrite Hn. intros H. inversion H; subst. congruence.
+  - cbn in Hn, Hk. rewrite Hn. intros H. inversion H; subst. destruct Hk; congruence.
   - cbn in Hn, Hk. rewrite Hn. intros H. inversion H; subst. congruence.
   - intros H. inversion H. lia.
 Qed.
@@ -783,7 +798,7 @@ Proof.
   intros H. cbn zeta. cbn [step].
   destruct (get_cases (bump s) false) as [(k & Hn & Hk & _)|[(k & Hn & Hk & _)|[(k & Hn & Hk & _)|(_ & [(Hf & _)|(_ & ->)])]]].
   - cbn in Hn, Hk. destruct H as [H|(n & H & Hc)]; unfold closed in *; congruence.
-  - cbn in Hn, Hk. destruct H as [H|(n & H & Hc)]; unfold closed in *; congruence.
+  - cbn in Hn, Hk. destruct H as [H|(n & H & Hc)]; unfold closed in *; destruct Hk; congruence.
   - cbn in Hn, Hk. destruct H as [H|(n & H & Hc)]; unfold closed in *; congruence.
   - discriminate.
   - cbn. auto.
@@ -791,16 +806,16 @@ Qed.
 
 (* the current sink is open: the request is forwarded to it at once, nothing else happens *)
 Lemma req_shares_open s f n :
-  next s = Some n -> nth_error (sinks s) n = Some SOpen ->
+  next s = Some n -> (nth_error (sinks s) n = Some SOpen \/ nth_error (sinks s) n = Some SBusy) ->
   step s (Req f) = (bump s, [Forward (ntask s) n]).
 Proof.
   intros Hn Hk. cbn [step].
   destruct (get_cases (bump s) f) as [(k & Hn' & Hk' & _)|[(k & Hn' & Hk' & ->)|[(k & Hn' & Hk' & _)|([Hc|(k & Hn' & Hk')] & _)]]].
-  - cbn in Hn', Hk'. congruence.
+  - cbn in Hn', Hk'. destruct Hk; congruence.
   - cbn in Hn', Hk'. assert (k = n) by congruence. subst. reflexivity.
-  - cbn in Hn', Hk'. congruence.
+  - cbn in Hn', Hk'. destruct Hk; congruence.
   - cbn in Hc. congruence.
-  - cbn in Hn', Hk'. congruence.
+  - cbn in Hn', Hk'. destruct Hk; congruence.
 Qed.
 
 (* the current sink is still opening: the request waits for the same open, no second sink *)
@@ -811,7 +826,7 @@ Proof.
   intros Hn Hk. cbn [step].
   destruct (get_cases (bump s) f) as [(k & Hn' & Hk' & ->)|[(k & Hn' & Hk' & _)|[(k & Hn' & Hk' & _)|([Hc|(k & Hn' & Hk')] & _)]]].
   - cbn in Hn', Hk'. assert (k = n) by congruence. subst. reflexivity.
-  - cbn in Hn', Hk'. congruence.
+  - cbn in Hn', Hk'. destruct Hk'; congruence.
   - cbn in Hn', Hk'. congruence.
   - cbn in Hc. congruence.
   - cbn in Hn', Hk'. congruence.
@@ -824,7 +839,7 @@ Lemma resume_forwards s t tk n :
   snd (step s (Resume t)) = [Forward t n].
 Proof.
   intros Hf Hk Hs Hn. cbn [step]. rewrite Hf, Hk, Hn.
-  destruct (nth_error (sinks s) (t_sink tk)) as [[| |]|]; try reflexivity. congruence.
+  destruct (nth_error (sinks s) (t_sink tk)) as [[| | |]|]; try reflexivity. congruence.
 Qed.
 
 (* a request issued when sink n is closed says nothing about n *)
@@ -834,7 +849,7 @@ Proof.
   intros Hc. pose proof (nth_error_lt _ _ _ Hc) as Hlt. unfold closed in Hc. cbn [step].
   destruct (get_cases (bump s) f) as [(k & Hn & Hk & ->)|[(k & Hn & Hk & ->)|[(k & Hn & Hk & ->)|(_ & [(_ & ->)|(_ & ->)])]]];
     cbn [snd app]; intros H Ho; repeat (destruct H as [H|H]; try subst o); try contradiction;
-    cbn in Ho; try discriminate; inversion Ho; subst; try (cbn in Hk; congruence); lia.
+    cbn in Ho; try discriminate; inversion Ho; subst; try (cbn in Hk; congruence); try (cbn in Hk; destruct Hk; congruence); lia.
 Qed.
 
 Lemma allclosed_count s : allclosed s -> live_count s = 0.
